@@ -307,6 +307,10 @@ class OutsideModel(Exception):
     pass
 
 
+def _segs(path):
+    return [_segs(p) if hasattr(p, "path") else p for p in path.path]
+
+
 def _expr_view(expr):
     """([root, index] of every Path in `_analyze_variables` order, filter names in `_extract_filters` order)."""
     from liquid.builtin.expressions import FilteredExpression, Path, TernaryFilteredExpression
@@ -317,9 +321,9 @@ def _expr_view(expr):
     def paths(e):
         if isinstance(e, Path):
             head = e.path[0]
-            if isinstance(head, Path):
-                raise OutsideModel("path-rooted-in-path")
-            refs.append([str(head), e.token.start_index])
+            # `_analyze_variables` files a Variable under str(segments[0]); for a path rooted in a path
+            # (`[x].y`) that is the str() of the nested segment list — reproduced here, not taken from the code
+            refs.append([str(_segs(head) if isinstance(head, Path) else head), e.token.start_index])
         if e.scope():
             raise OutsideModel("expression-scope")
         for c in e.children():
@@ -574,6 +578,34 @@ def observe(prog):
     obs["tags"] = sorted(list(x) for x in tags)
     obs["resolves"] = sorted(list(x) for x in resolves)
     obs["walk_missing"] = tx.walk_missing[:10]
+    bad = []
+    import re as _re
+
+    def _at(tname, idx):
+        src_t = sources.get(tname)
+        return None if src_t is None or idx < 0 or idx > len(src_t) else src_t[idx:]
+
+    for k, vs in analysis.variables.items():
+        for v in vs:
+            rest = _at(str(v.span.template_name), int(v.span.index))
+            root = v.segments[0]
+            if rest is None:
+                bad.append(["variable", str(k), str(v.span.template_name), int(v.span.index), "no-such-position"])
+            elif isinstance(root, str) and _re.fullmatch(r"[A-Za-z_][A-Za-z0-9_-]*", root) and not (
+                rest.startswith(root) or rest.startswith("['" + root) or rest.startswith('["' + root)
+            ):
+                bad.append(["variable", str(k), str(v.span.template_name), int(v.span.index), rest[:12]])
+    for k, spans in analysis.filters.items():
+        for sp in spans:
+            rest = _at(str(sp.template_name), int(sp.index))
+            if rest is None or not rest.startswith(str(k)):
+                bad.append(["filter", str(k), str(sp.template_name), int(sp.index), (rest or "")[:12]])
+    for k, spans in analysis.tags.items():
+        for sp in spans:
+            rest = _at(str(sp.template_name), int(sp.index))
+            if rest is None or not rest.startswith(str(k)):
+                bad.append(["tag", str(k), str(sp.template_name), int(sp.index), (rest or "")[:12]])
+    obs["bad_spans"] = bad[:5]
     obs["sites"] = dict(sorted(tx.sites.items()))
     obs["site_detail"] = dict(sorted(tx.site_detail.items()))
     obs["include_under_isolation"] = tx.include_under_isolation
@@ -613,6 +645,9 @@ def direct_oracle(obs):
     for name, tmpl, pos in obs["tags"]:
         if name not in tag_names:
             return ("tag-omitted|" + name, [name, tmpl, pos])
+    if obs.get("bad_spans"):
+        b = obs["bad_spans"][0]
+        return ("span-mismatch|" + b[0], obs["bad_spans"])
     if obs.get("walk_missing"):
         return ("harness|reference-walk-incomplete", obs["walk_missing"])
     sites = obs.get("sites") or {}
